@@ -3,6 +3,7 @@ package service
 
 import (
 	"github.com/jcmturner/gokrb5/v8/types"
+	"strings"
 	"sync"
 	"time"
 )
@@ -36,11 +37,21 @@ type replayCacheEntry struct {
 	cTime         time.Time // This combines the ticket's CTime and Cusec
 }
 
-func (c *Cache) getClientEntries(cname types.PrincipalName) (clientEntries, bool) {
+func (c *Cache) getClientEntries(crealm string, cname types.PrincipalName) (clientEntries, bool) {
 	c.mux.RLock()
 	defer c.mux.RUnlock()
-	ce, ok := c.entries[cname.PrincipalNameString()]
+	ce, ok := c.entries[clientKey(crealm, cname)]
 	return ce, ok
+}
+
+// nameKey joins the components of a principal name unambiguously ("a/b" and "a","b" are different names).
+func nameKey(pn types.PrincipalName) string {
+	return strings.Join(pn.NameString, "\x00")
+}
+
+// clientKey identifies a client principal: its realm and its name.
+func clientKey(crealm string, cname types.PrincipalName) string {
+	return crealm + "\x00\x00" + nameKey(cname)
 }
 
 // Instance of the ServiceCache. This needs to be a singleton.
@@ -98,8 +109,8 @@ func (c *Cache) AddEntry(sname types.PrincipalName, a types.Authenticator) {
 // addEntry adds an entry to the Cache. The caller must hold the write lock.
 func (c *Cache) addEntry(sname types.PrincipalName, a types.Authenticator) {
 	ct := clientTime(a)
-	if ce, ok := c.entries[a.CName.PrincipalNameString()]; ok {
-		ce.replayMap[replayKey{ct, sname.PrincipalNameString()}] = replayCacheEntry{
+	if ce, ok := c.entries[clientKey(a.CRealm, a.CName)]; ok {
+		ce.replayMap[replayKey{ct, nameKey(sname)}] = replayCacheEntry{
 			presentedTime: time.Now().UTC(),
 			sName:         sname,
 			cTime:         ct,
@@ -107,9 +118,9 @@ func (c *Cache) addEntry(sname types.PrincipalName, a types.Authenticator) {
 		ce.seqNumber = a.SeqNumber
 		ce.subKey = a.SubKey
 	} else {
-		c.entries[a.CName.PrincipalNameString()] = clientEntries{
+		c.entries[clientKey(a.CRealm, a.CName)] = clientEntries{
 			replayMap: map[replayKey]replayCacheEntry{
-				{ct, sname.PrincipalNameString()}: {
+				{ct, nameKey(sname)}: {
 					presentedTime: time.Now().UTC(),
 					sName:         sname,
 					cTime:         ct,
@@ -145,8 +156,8 @@ func (c *Cache) IsReplay(sname types.PrincipalName, a types.Authenticator) bool 
 	ct := clientTime(a)
 	c.mux.Lock()
 	defer c.mux.Unlock()
-	if ce, ok := c.entries[a.CName.PrincipalNameString()]; ok {
-		if _, ok := ce.replayMap[replayKey{ct, sname.PrincipalNameString()}]; ok {
+	if ce, ok := c.entries[clientKey(a.CRealm, a.CName)]; ok {
+		if _, ok := ce.replayMap[replayKey{ct, nameKey(sname)}]; ok {
 			return true
 		}
 	}
